@@ -249,3 +249,30 @@ Example rr_exact_target_shares_nonvacuous :
   count_nat 1 (map (fun p => nth p [0; 1; 1; 2; 1] 0) (positions 5 (consecutive 18446744073709551600 (3 * 5)))) = 3 * 3
   /\ window [0; 1; 1; 2; 1] 7 6 = [1; 2; 1; 0; 1; 1].
 Proof. vm_compute. split; reflexivity. Qed.
+
+(* ------------------------------------------------------------------ rndPicker: every schedule, a member of the ring *)
+Definition rn_ok (ring : list nat) (l : rn_local) : Prop :=
+  Forall (fun o => exists t, o = Ok t /\ In t ring) (rn_picks l).
+
+Theorem rnd_pick_member_l : forall {St} (draw : St -> nat -> St * nat) ring,
+  (forall st n, 0 < n -> snd (draw st n) < n) -> ring <> [] ->
+  forall sched st ts, Forall (rn_ok ring) ts -> Forall (rn_ok ring) (snd (run (rn_step draw ring) sched st ts)).
+Proof.
+  intros St draw ring Hd Hr sched. induction sched as [|i sched IH]; intros st ts H; cbn [run]; [assumption|].
+  unfold step1. destruct (nth_error ts i) as [l|] eqn:E; [|apply IH; assumption].
+  assert (Hl : rn_ok ring l) by (eapply (proj1 (Forall_forall _ _) H); eapply nth_error_In; eassumption).
+  assert (S : rn_ok ring (snd (rn_step draw ring st l))).
+  { unfold rn_step. destruct (rn_todo l) as [|k]; [assumption|].
+    destruct ring as [|a r] eqn:Er; [congruence|]. rewrite <- Er in *.
+    assert (HL : 0 < length ring) by (rewrite Er; cbn; lia).
+    pose proof (Hd st (length ring) HL) as B. destruct (draw st (length ring)) as [st' ix]. cbn [fst snd] in *.
+    unfold rn_ok. cbn [rn_picks]. apply Forall_app. split; [assumption|]. constructor; [|constructor].
+    destruct (nth_error ring ix) as [t|] eqn:En; [|apply nth_error_None in En; lia].
+    exists t. split; [reflexivity | eapply nth_error_In; eassumption]. }
+  destruct (rn_step draw ring st l) as [st' l']. cbn [snd] in S. apply IH. now apply Forall_upd.
+Qed.
+
+Example rnd_pick_nonvacuous :
+  map rn_picks (snd (run (rn_step (fun st n => (S st, st mod n)) [0; 1; 1]) [0; 1; 0; 1] 4 [rn_init 2; rn_init 2]))
+  = [[Ok 1; Ok 0]; [Ok 1; Ok 1]].
+Proof. vm_compute. reflexivity. Qed.
